@@ -87,7 +87,7 @@ func execGroup(r *rand.Rand, e *GroupEv) {
 	for _, p := range []*Paths{&e.I, &e.U, &e.D, &e.X, &e.D2, &e.US, &e.UC, &e.US2} {
 		*p = nz(*p)
 	}
-	e.ArgsSame = equalPaths(s0, e.Subj) && equalPaths(c0, e.Clip)
+	e.ArgsSame = equalPaths(s0, e.Subj) && equalPaths(c0, e.Clip) && argsUnchanged()
 	all := []Paths{e.Subj, e.Clip, e.I, e.U, e.D, e.X, e.D2, e.US}
 	far := func(p Pt) bool {
 		for _, s := range all {
